@@ -6,6 +6,7 @@ package main
 import (
 	"encoding/json"
 	"fmt"
+	"go/types"
 	"os"
 
 	"golang.org/x/tools/go/types/objectpath"
@@ -96,7 +97,20 @@ Run "garble map" with the same garble flags used to build, since flags such as
 			if parent := obj.Parent(); parent != nil && parent != tf.pkg.Scope() {
 				continue
 			}
-			newName, ok := tf.obfuscatedObjectName(obj)
+			if obj.Name() == "_" {
+				continue // unnamed remains unnamed
+			}
+			nameObj := obj
+			if vr, ok := obj.(*types.Var); ok && vr.Embedded() {
+				// An embedded field is named after its type,
+				// so it is obfuscated like the type; see transformGoFile.
+				tname := namedType(obj.Type())
+				if tname == nil {
+					continue // unnamed type (probably a basic type, e.g. int)
+				}
+				nameObj = tname
+			}
+			newName, ok := tf.obfuscatedObjectName(nameObj)
 			if !ok {
 				continue // not obfuscated
 			}
